@@ -12,6 +12,8 @@ use serde_json::json;
 enum A {
   In(usize, Note),
   Tick,
+  /// the (first) subscriber unsubscribes; at most once per history
+  Unsub,
 }
 
 /// run the whole action list in one form; snapshot = (probe, probe2) traces
@@ -37,6 +39,10 @@ fn run_form(pipe: &Pipe, form: Form, acts: &[A], second_sub: bool) -> Vec<(Vec<N
       A::Tick => {
         r.tick();
       }
+      A::Unsub => {
+        r.sub.unsubscribe();
+        r.drain();
+      }
     }
     snaps.push((r.probe.notes(), p2.notes()));
   }
@@ -56,9 +62,17 @@ fn diff_job(pipe: Pipe, len: usize, second_sub: bool) -> Job {
   Job::new(name, move |ch, obs| {
     let n_act = n_in * ALPHA4 + timed as usize;
     let mut acts = vec![];
+    let mut unsubbed = false;
     for _ in 0..len {
-      let k = ch.choose(n_act);
-      let a = if k == n_in * ALPHA4 { A::Tick } else { A::In(k / ALPHA4, alpha4(k % ALPHA4)) };
+      let k = ch.choose(n_act + !unsubbed as usize);
+      let a = if k == n_act {
+        unsubbed = true;
+        A::Unsub
+      } else if k == n_in * ALPHA4 {
+        A::Tick
+      } else {
+        A::In(k / ALPHA4, alpha4(k % ALPHA4))
+      };
       ch.label(|| format!("{a:?}"));
       acts.push(a);
     }
@@ -250,7 +264,7 @@ pub fn plan(tier: Tier) -> Plan {
       prop: "C18".into(),
       tier: tier_name(tier),
       engine: "E1 opseq".into(),
-      rule: "every pipeline of the C01 generator is instantiated twice from the same AST — all-local (Subject, Subscriber, BoxOp, merge, ...) and all-thread-safe (SubjectThreads, SubscriberThreads, BoxOpThreads, merge_threads, ...) — and both are driven single-threaded through every action history up to the length bound over {next(0), next(1), complete, error per input, tick}; the probe traces (and those of a second subscriber for share) must be identical after every action (pure differential oracle); likewise BehaviorSubject over Subject vs over SubjectThreads on every operation sequence incl. a subscriber that peeks from inside its callback (a form that does not return is a divergence); non-trivial = something was delivered".into(),
+      rule: "every pipeline of the C01 generator is instantiated twice from the same AST — all-local (Subject, Subscriber, BoxOp, merge, ...) and all-thread-safe (SubjectThreads, SubscriberThreads, BoxOpThreads, merge_threads, ...) — and both are driven single-threaded through every action history up to the length bound over {next(0), next(1), complete, error per input, tick, unsubscribe (once)}; the probe traces (and those of a second subscriber for share) must be identical after every action (pure differential oracle); likewise BehaviorSubject over Subject vs over SubjectThreads on every operation sequence incl. a subscriber that peeks from inside its callback (a form that does not return is a divergence); non-trivial = something was delivered".into(),
       bounds: json!({"chain_depth": depth, "history_len_chains": len, "history_len_two_input": len2, "pipelines": n_pipes}),
       assumptions: vec!["FIFO-prompt executor in both instantiations".into()],
     },
